@@ -292,7 +292,10 @@ def alphabet(view, rich_initial=True):
                     add(fl + "=5")
                 if first:
                     add(fl + "=")
+                    add(fl + "=--")          # a VALUE that looks like the remainder sentinel, delivered inside the token
                 if short:
+                    if first:
+                        add(fl + "--")
                     add(fl + "v1", first)
                     add(fl + "5")
                     add(fl + "x=y")
@@ -444,6 +447,13 @@ FIXED = [
             {"names": ["items", "m"], "kind": "list", "default": []},
             {"names": ["c"], "kind": "int", "default": 2, "incrementable": True}]}]},
 ]
+
+# 7: the same short letter means flags of DIFFERENT kinds in two tasks (and in the core): multi-character short tokens must be
+#    split with the flags of the context they stand in - exhaustive length <= 4 over a tiny alphabet
+FIXED.append({"id": "S7", "initial": MINI_CORE, "ign": False, "tasks": [
+    {"name": "bb", "params": [["f", False], ["a", False], ["e", "x"]]},
+    {"name": "dd", "params": [["f", "x"], ["a", False]]}],
+    "tiny": ["bb", "dd", "-fa", "-af", "-ea", "-fe", "v", "-T5"]})
 
 VOCAB = ["a", "b", "n", "ab", "name", "foo", "foo_bar", "v", "lst", "x", "opt", "no_x", "help", "e", "T"]
 TASKNAMES = ["t1", "t2", "build", "foo", "a", "v", "deploy_all"]
@@ -721,6 +731,12 @@ def replay(case):
 def argvs_for(bench, ctx, rng):
     full, red, mid = alphabet(bench.view, bench.sig.get("rich_initial", True))
     deep = ctx.thorough or ctx.escalated
+    if bench.sig.get("tiny"):
+        tiny = bench.sig["tiny"]
+        out = [[]]
+        for n in range(1, 6 if deep else 5):
+            out += [list(t) for t in itertools.product(tiny, repeat=n)]
+        return out, tiny, tiny
     out = [[]]
     for n in (1, 2):
         out += [list(t) for t in itertools.product(full, repeat=n)]
